@@ -73,7 +73,15 @@ class ConstraintProxy(object):
 
   def __call__(self, w):
     out = self.real(w)
-    self.on_call(self.name, self.real)
+    tf = env.mods()[0]
+    if tf.executing_eagerly():
+      # Inside a traced train step the observer cannot (and need not) look at
+      # values; the world re-synchronises its reference state after fit().
+      try:
+        self.on_call(self.name, self.real)
+      except Exception as e:  # pylint: disable=broad-except
+        from .. import engine
+        raise engine.HarnessError("constraint observer failed: %r" % (e,))
     return out
 
   def get_config(self):
